@@ -199,6 +199,7 @@ type request struct {
 	script     Script
 	delayed    bool // logged "attempt delayed"
 	entered    bool // published its first event or returned
+	returned   atomic.Bool
 }
 
 type c01Run struct {
@@ -299,9 +300,15 @@ func (run *c01Run) block(req *request) {
 	waiting := 0
 	for {
 		run.mu.Lock()
-		if run.cur != nil && run.cur != req {
-			// another request published an event while this body holds the transition mutex:
-			// the overlap is on record (oracle 2 will report it), no point in waiting
+		intruder := false
+		for _, q := range run.reqOf {
+			if q != req && q.entered && !q.returned.Load() {
+				intruder = true
+			}
+		}
+		if intruder {
+			// another request is publishing events while this body holds the transition mutex:
+			// the overlap is on record (oracle 2 reports it), waiting would only stall both
 			run.mu.Unlock()
 			break
 		}
@@ -370,6 +377,7 @@ func (run *c01Run) issue(caller int, g int, op string, force bool, sc Script, sa
 			return berr
 		}))
 	}
+	req.returned.Store(true)
 	from := vlib.Seq()
 	st := lab.Env.CurrentState()
 	ct := lab.Env.CurrentTransition()
